@@ -60,6 +60,7 @@ type StreamPlan struct {
 	ErrMsg            string
 	ThenFIN           bool
 	Invalid           []byte // invalid-event payload
+	GateAccepted      bool   // the "invalid" payload is a bare 19..22-byte header with a consistent length: the gate accepts it; only "no panic" is judged
 	Second            bool   // a second, short malformed packet follows the injected one at once
 	Invalid2          []byte
 	BadType           byte   // unsupported event type
